@@ -228,7 +228,7 @@ def run_schedule(n, schedule, refresh, advances, keyed):
     def worker(i):
         def fn():
             for _ in range(2):
-                key = f"k{i % 2}" if keyed else "k"
+                key = (i % 2) if keyed == "int" else f"k{i % 2}" if keyed else "k"  # cache keys may be str or int
                 results[i].append((clock[0], key, prov.get(key, None)))
 
         return fn
@@ -258,13 +258,13 @@ def run_schedule(n, schedule, refresh, advances, keyed):
 
 @st.composite
 def schedule_case(draw):
-    return {"n": draw(st.integers(2, 4)), "schedule": draw(st.lists(st.integers(0, 3), max_size=80)), "advances": draw(st.lists(st.integers(0, 6).map(lambda x: int(x == 0)), max_size=80)), "keyed": draw(st.booleans())}
+    return {"n": draw(st.integers(2, 4)), "schedule": draw(st.lists(st.integers(0, 3), max_size=80)), "advances": draw(st.lists(st.integers(0, 6).map(lambda x: int(x == 0)), max_size=80)), "keyed": draw(st.sampled_from([False, "str", "int"]))}
 
 
 def check_schedule(ctx: Ctx, inp) -> None:
     refresh = 10
     status, calls, results, contended = run_schedule(inp["n"], inp["schedule"], refresh, inp["advances"], inp["keyed"])
-    ctx.case(nontrivial=inp if contended else None, classes=[f"threads={inp['n']}", "keyed" if inp["keyed"] else "plain", "contended" if contended else "uncontended", f"fetches={min(len(calls), 5)}"], sample={"input": inp, "provider_calls": calls})
+    ctx.case(nontrivial=inp if contended else None, classes=[f"threads={inp['n']}", f"keyed-{inp['keyed']}" if inp["keyed"] else "plain", "contended" if contended else "uncontended", f"fetches={min(len(calls), 5)}"], sample={"input": inp, "provider_calls": calls})
     if status != "ok":
         ctx.disagree("auth-cache:" + status, "the schedule did not terminate", input=inp)
         return
